@@ -17,9 +17,18 @@ the following definitions (or never ends).
 import GooseVerif.GL.Lex
 import GooseVerif.Model.Sanitize
 import GooseVerif.Lemmas.Sanitize
+import GooseVerif.Lemmas.SanitizeQ
+import GooseVerif.Gen.PrinterFacts
+import GooseVerif.Expected.PrinterFacts
 
 namespace GooseVerif.Props.C05
 open GooseVerif.Model.Sanitize GooseVerif.GL GooseVerif
+
+/-- T-gen obligation: the printer functions the models were written from (AddComment with its three
+replacements, indent, Block, quote, binder, the string-literal and log-statement printers, and the
+parenthesising printers) are, up to formatting, the committed expectation. -/
+theorem printer_facts_ok :
+    Gen.Printer.lexical = Expected.Printer.lexical ∧ Gen.Printer.nesting = Expected.Printer.nesting := ⟨rfl, rfl⟩
 
 /-! ### the two `ReplaceAll`s -/
 
@@ -105,7 +114,45 @@ theorem block_lexes_to_nothing (k : Nat) (c rest : List Char) (hq : inStringAfte
     simp [commentBlock, h1]
   rw [e, Lemmas.Sanitize.lexAux_comment, h]
 
-/-! ### the known defect: an odd number of quotes -/
+/-! ### with the repair of unpaired quotes (`fixQuotes`, the third step of `AddComment`): every comment -/
+
+/-- What `AddComment` prints contains no comment opener, whatever the Go text. -/
+theorem sanitizeQ_no_open (c : List Char) : hasPair '(' '*' (sanitizeQ c) = false :=
+  Lemmas.Sanitize.sanitizeQ_no_open c
+
+/-- … and no comment closer. -/
+theorem sanitizeQ_no_close (c : List Char) : hasPair '*' ')' (sanitizeQ c) = false :=
+  Lemmas.Sanitize.sanitizeQ_no_close c
+
+/-- Comments whose quotes pair up are printed as before the repair existed. -/
+theorem sanitizeQ_paired (c : List Char) (h : c.count '"' % 2 = 0) : sanitizeQ c = sanitize c := by
+  have hq := (sanitize_preserves_quotes c).1
+  simp [sanitizeQ, fixQuotes, hq, h]
+
+/-- EVERY comment text — any characters, any number of quotes, any delimiters — is skipped by the
+lexer exactly up to the closing delimiter goose printed. -/
+theorem comment_always_closes (c rest : List Char) :
+    ∃ fuel0, ∀ fuel ≥ fuel0,
+      skipComment fuel 1 false (sanitizeQ c ++ [' ', '*', ')'] ++ rest) = some rest :=
+  ⟨(sanitizeQ c).length + 2, fun fuel hf =>
+    Lemmas.Sanitize.skipComment_body_ge _ rest (sanitizeQ_no_open c) (sanitizeQ_no_close c)
+      (Lemmas.Sanitize.sanitizeQ_string_mode c) fuel hf⟩
+
+/-- The printed block (continuation lines indented), for EVERY comment text, lexes to nothing:
+the tokens of the file are the tokens of what follows the comment. -/
+theorem block_always_lexes_to_nothing (k : Nat) (c rest : List Char) (fuel : Nat) (acc : List Tok) :
+    lexAux (fuel + 1) (commentBlockQ k c ++ rest) acc = lexAux fuel rest acc := by
+  obtain ⟨t, h1, h2, h3, h4⟩ := Lemmas.Sanitize.block_bodyQ k c
+  have h := Lemmas.Sanitize.skipComment_body_sp t rest h2 h3 h4
+    ((' ' :: (t ++ [' ', '*', ')']) ++ rest).length + 1) (by simp)
+  have e : commentBlockQ k c ++ rest = '(' :: '*' :: (' ' :: (t ++ [' ', '*', ')']) ++ rest) := by
+    simp [commentBlockQ, h1]
+  rw [e, Lemmas.Sanitize.lexAux_comment, h]
+
+example : sanitizeQ "it's a \"quote".toList = "it's a 'quote".toList := by decide
+example : sanitizeQ "say \"hi\" (*".toList = "say \"hi\" ( *".toList := by decide
+
+/-! ### before the repair (the model `sanitize` alone): an odd number of quotes -/
 
 /-- A comment with an odd number of quotes is still "inside a string" at goose's ` *)`: if the rest
 of the file has no quote the comment never ends, with any fuel. -/
